@@ -17,7 +17,7 @@ NEEDS_DTYPES = False
 RULE = (
     "exhaustive matrix in fresh interpreters: DLTYPE_DISABLE in {unset, 0, 1, true, false, yes, lower-case variable name=1} x "
     "DLTYPE_DEBUG_MODE in {unset, 0, 1} x logging level in {default, DEBUG}; inside each interpreter: the three decorators x enabled in "
-    "{default, True, False}: `decorator(obj) is obj`, and the verdict vector of a fixed 24-call corpus (accepting and rejecting calls, all "
+    "{default, True, False}: `decorator(obj) is obj`, and the verdict vector of a fixed 29-call corpus (single, optional and tuple hints) (accepting and rejecting calls, all "
     "error kinds) through each decorated object. Expectation: identity iff the effective `enabled` is false (Lean decision table "
     "Properties/C13.lean), verdict vectors equal to the baseline configuration's. non-trivial = every (configuration, decorator, enabled) triple"
 )
@@ -32,24 +32,31 @@ from typing import Annotated, NamedTuple
 from dataclasses import dataclass
 import numpy as np, dltype
 A = dltype.FloatTensor["a b"]; B = dltype.FloatTensor["b c=a+b"]; I = dltype.IntTensor["*g 2"]
+P = dltype.FloatTensor["p q"]; Q = dltype.IntTensor["q 2"]
+Z = lambda *s, dt=np.float32: np.zeros(s, dtype=dt)
+TD = (Z(4,5), 7, Z(5,2,dt=np.int64))
+TT = tuple[Annotated[np.ndarray, P], int, Annotated[np.ndarray, Q]]
 def mk():
-    def f(x: Annotated[np.ndarray, A], y: Annotated[np.ndarray, B] | None = None, z: Annotated[np.ndarray, I] | None = None): return 1
+    def f(x: Annotated[np.ndarray, A], y: Annotated[np.ndarray, B] | None = None, z: Annotated[np.ndarray, I] | None = None, t: TT = TD): return 1
     class NT(NamedTuple):
         x: Annotated[np.ndarray, A]
         y: Annotated[np.ndarray, B] | None = None
         z: Annotated[np.ndarray, I] | None = None
+        t: TT = TD
     @dataclass
     class DC:
         x: Annotated[np.ndarray, A]
         y: Annotated[np.ndarray, B] | None = None
         z: Annotated[np.ndarray, I] | None = None
+        t: TT = TD
     return f, NT, DC
-Z = lambda *s, dt=np.float32: np.zeros(s, dtype=dt)
 CORPUS = [
  (Z(2,3),), (Z(2,3), Z(3,5)), (Z(2,3), Z(3,4)), (Z(2,3), Z(4,5)), (Z(2,),), (Z(2,3,4),), (Z(2,3,dt=np.int32),), (5,), (None,),
  (Z(2,3), None, Z(4,2,dt=np.int64)), (Z(2,3), None, Z(2,dt=np.int8)), (Z(2,3), None, Z(4,3,dt=np.int64)), (Z(2,3), None, Z(4,2)),
  (Z(0,3), Z(3,3)), (Z(0,0),), (Z(1,1), Z(1,2)), (Z(1,1), Z(1,3)), (Z(2,3), Z(3,5), Z(1,1,2,dt=np.uint8)), (Z(2,3), "s"),
  (Z(2,3), Z(3,5,dt=np.float64)), (Z(2,3), Z(3,5,dt=np.int32)), (Z(2,3), Z(3,)), (Z(2,3), Z(3,5,1)), (Z(5,7), Z(7,12)),
+ (Z(2,3), None, None, (Z(1,2), 0, Z(2,2,dt=np.int8))), (Z(2,3), None, None, (Z(1,2), 0, Z(3,2,dt=np.int8))), (Z(2,3), None, None, (Z(1,2,1), 0, Z(2,2,dt=np.int8))),
+ (Z(2,3), None, None, (Z(1,2), 0, Z(2,2))), (Z(2,3), None, None, (Z(1,2), 0)),
 ]
 def verdicts(obj):
     out = []
